@@ -131,9 +131,58 @@ def _check_same(gtype, want, H, what):
 # ---------------------------------------------------------------------------
 # (a) round trip
 
-def run_roundtrip(case):
-    from cnfgen.graphs import readGraph, writeGraph, supported_graph_formats
+def _roundtrip_routes(G, gtype, fmt, route, cls, results):
+    from cnfgen.graphs import readGraph, writeGraph
     from cnfgen.clitools.graph_args import make_graph_from_spec
+    if route == 'stringio':
+        buf = io.StringIO()
+        writeGraph(G, buf, gtype, fmt)
+        text = buf.getvalue()
+        results.append(('text', text))
+        results.append(('readGraph(StringIO)', readGraph(io.StringIO(text), gtype, fmt)))
+    else:
+        with _tmpdir() as tmp:
+            p = os.path.join(tmp, 'graph_a.' + fmt)
+            q = os.path.join(tmp, 'graph_b.txt')
+            if route == 'filename':
+                writeGraph(G, p, gtype)
+                results.append(('readGraph(name)', readGraph(p, gtype)))
+                writeGraph(G, q, gtype, fmt)
+                results.append(('readGraph(name, format)', readGraph(q, gtype, fmt)))
+            elif route == 'filehandle':
+                with open(p, 'w', encoding='utf-8') as f:
+                    writeGraph(G, f, gtype)
+                with open(p, 'r', encoding='utf-8') as f:
+                    results.append(('readGraph(handle)', readGraph(f, gtype)))
+            elif route == 'from_file':
+                writeGraph(G, p, gtype, fmt)
+                shutil.copy(p, q)
+                results.append(('from_file(name)', cls.from_file(p)))
+                results.append(('from_file(name, format)', cls.from_file(q, fmt)))
+                with open(q, 'r', encoding='utf-8') as f:
+                    results.append(('from_file(handle, format)', cls.from_file(f, fmt)))
+            else:
+                writeGraph(G, p, gtype, fmt)
+                shutil.copy(p, q)
+                p2 = os.path.join(tmp, 'saved_a.' + fmt)
+                q2 = os.path.join(tmp, 'saved_b')
+                results.append(('<file>', make_graph_from_spec(gtype, [p, 'save', p2])))
+                results.append(('<file> after save <file>', make_graph_from_spec(gtype, [p2])))
+                results.append(('<format> <file>', make_graph_from_spec(gtype, [fmt, q, 'save', fmt, q2])))
+                results.append(('<format> <file> after save <format> <file>',
+                                make_graph_from_spec(gtype, [fmt, q2])))
+                with open(q2, 'r', encoding='utf-8') as f:
+                    text = f.read()
+                old_stdin = sys.stdin
+                sys.stdin = io.StringIO(text)
+                try:
+                    results.append(('<format> - (standard input)', make_graph_from_spec(gtype, [fmt, '-'])))
+                finally:
+                    sys.stdin = old_stdin
+
+
+def run_roundtrip(case):
+    from cnfgen.graphs import supported_graph_formats
     gtype, fmt, route = case['gtype'], case['fmt'], case['route']
     name = case.get('name')
     if gtype == 'bipartite':
@@ -153,46 +202,25 @@ def run_roundtrip(case):
     G = _build(gtype, want, name)
     what = "{} graph {} written as {} via {}".format(gtype, {k: want[k] for k in want if k != 'edges'}, fmt, route)
     results = []
-    with _quiet():
-        if route == 'stringio':
-            buf = io.StringIO()
-            writeGraph(G, buf, gtype, fmt)
-            text = buf.getvalue()
-            results.append(('readGraph(StringIO)', readGraph(io.StringIO(text), gtype, fmt)))
-        else:
-            with _tmpdir() as tmp:
-                p = os.path.join(tmp, 'graph_a.' + fmt)
-                q = os.path.join(tmp, 'graph_b.txt')
-                if route == 'filename':
-                    writeGraph(G, p, gtype)
-                    results.append(('readGraph(name)', readGraph(p, gtype)))
-                    writeGraph(G, q, gtype, fmt)
-                    results.append(('readGraph(name, format)', readGraph(q, gtype, fmt)))
-                elif route == 'filehandle':
-                    with open(p, 'w', encoding='utf-8') as f:
-                        writeGraph(G, f, gtype)
-                    with open(p, 'r', encoding='utf-8') as f:
-                        results.append(('readGraph(handle)', readGraph(f, gtype)))
-                elif route == 'from_file':
-                    writeGraph(G, p, gtype, fmt)
-                    shutil.copy(p, q)
-                    results.append(('from_file(name)', cls.from_file(p)))
-                    results.append(('from_file(name, format)', cls.from_file(q, fmt)))
-                    with open(q, 'r', encoding='utf-8') as f:
-                        results.append(('from_file(handle, format)', cls.from_file(f, fmt)))
-                else:
-                    writeGraph(G, p, gtype, fmt)
-                    shutil.copy(p, q)
-                    p2 = os.path.join(tmp, 'saved_a.' + fmt)
-                    q2 = os.path.join(tmp, 'saved_b')
-                    results.append(('<file>', make_graph_from_spec(gtype, [p, 'save', p2])))
-                    results.append(('<file> after save <file>', make_graph_from_spec(gtype, [p2])))
-                    results.append(('<format> <file>', make_graph_from_spec(gtype, [fmt, q, 'save', fmt, q2])))
-                    results.append(('<format> <file> after save <format> <file>',
-                                    make_graph_from_spec(gtype, [fmt, q2])))
-    for how, H in results:
-        _check_same(gtype, want, H, what + ' / ' + how)
+    try:
+        with _quiet():
+            _roundtrip_routes(G, gtype, fmt, route, cls, results)
+    except ValueError as e:
+        raise Violation("{}: writing the graph and reading the file back raised ValueError({}) after {}".format(
+            what, e, [h for h, _ in results if h != 'text'] or 'nothing'), signature='rt-rejected')
     labels = ['{}/{}'.format(gtype, fmt), 'route:' + route] + _shape_labels(gtype, want)
+    for how, H in results:
+        if how == 'text':
+            # the file the tree wrote, read by the independent reference reader
+            if fmt in R.INHOUSE[gtype]:
+                ref = R.ref_read(fmt, gtype, H)
+                if ref.status == 'invalid' or ref.graph != want:
+                    raise Violation("{}: the text written, {!r}, does not describe the graph {} for the reference reader ({} {})".format(
+                        what, H, want, ref.status, ref.graph if ref.graph is not None else ref.why),
+                        signature='rt-written-text')
+                labels.append('written-text-' + ref.status)
+            continue
+        _check_same(gtype, want, H, what + ' / ' + how)
     if name is not None:
         labels.append('named')
     return Outcome(labels=labels, nontrivial=len(want['edges']) >= 1 and R.desc_order(want) >= 3)
@@ -588,6 +616,7 @@ def run_fuzz(case):
     if stats['valid']:
         labels.append('reached-valid-text')
     return Outcome(labels=labels + ['fuzz-execs:{}:{}/{}/{}'.format(stats['execs'], fmt, gtype, case['corpus']),
+                                    'fuzz-accepted:{}:{}/{}/{}'.format(stats['graphs'], fmt, gtype, case['corpus']),
                                     'fuzz-corpus-size:{}:{}/{}/{}'.format(ncorpus, fmt, gtype, case['corpus'])],
                    nontrivial=stats['graphs'] > 0)
 
@@ -598,13 +627,13 @@ _PAIRS = ['{}/{}'.format(t, f) for t in R.TYPES for f in FORMATS[t]]
 
 SUBCHECKS = [
     SubCheck('roundtrip', run_roundtrip, strategy=strat_roundtrip, enumerate_cases=enum_roundtrip,
-             quick=2400, thorough=60000,
-             rule="graphs of the four types with 0..14 vertices (10..14 in a third of the cases), random edge subsets of density 0, 1/2 .. 1/16 (isolated vertices, empty sides, loops and back edges for digraphs), default or generated one-line name, every format of supported_graph_formats() for the type, five routes: StringIO with explicit format / file name with the format taken from the extension and with explicit format / open file handle / Graph.from_file (name, name+format, handle+format) / command-line graph argument '<file>' and 'save <file>' with and without explicit format; plus every simple graph and dag on <=4 vertices, digraph on <=3, bipartite graph with sides <=2 in every format through StringIO; oracle: class, vertex count, left/right split, list(edges()), number_of_edges(), is_dag() all as in the original; non-trivial: >=1 edge and >=3 vertices",
+             quick=2000, thorough=40000,
+             rule="graphs of the four types with 0..14 vertices (10..14 in a third of the cases), random edge subsets of density 0, 1/2 .. 1/16 (isolated vertices, empty sides, loops and back edges for digraphs), default or generated one-line name, every format of supported_graph_formats() for the type, five routes: StringIO with explicit format / file name with the format taken from the extension and with explicit format / open file handle / Graph.from_file (name, name+format, handle+format) / command-line graph argument '<file>', '<format> <file>', '<format> -' (standard input) and 'save <file>' / 'save <format> <file>'; plus every simple graph and dag on <=4 vertices, digraph on <=3, bipartite graph with sides <=2 in every format through StringIO; oracle: class, vertex count, left/right split, list(edges()), number_of_edges(), is_dag() all as in the original, and (StringIO route, in-house formats) the written text means the same graph to the independent reference reader; non-trivial: >=1 edge and >=3 vertices",
              required_labels=_PAIRS + ['route:' + r for r in ROUTES] + ['>=10-vertices', 'isolated', 'empty-side',
                                                                        'null-graph', 'has-back-edge', 'self-loop',
-                                                                       'named', 'last-vertex-isolated']),
+                                                                       'named', 'last-vertex-isolated', 'written-text-valid']),
     SubCheck('readers_text', run_text, strategy=strat_text, enumerate_cases=enum_text,
-             quick=20000, thorough=400000,
+             quick=16000, thorough=300000,
              rule="texts for kthlist (simple, digraph, dag, bipartite), dimacs (simple, digraph, dag) and matrix: written by the reference writers in several layouts from random graphs (0..14 vertices), optionally with an edge the type forbids, then 0..3 mutations (blank / whitespace / comment lines anywhere, truncation, deleted / duplicated / swapped lines, changed / deleted / inserted numbers, deleted / inserted characters, CR LF, int() spellings, indentation, continuation lines, unknown line types) or short random texts over the format's alphabet, plus the snippets of tests/ and of the documentation; oracle: independent reference reader (valid -> exactly that graph, invalid -> ValueError, gray -> either), never an exception other than ValueError, a text read as 'dag' is accepted only if all edges go upward; non-trivial: the text has a size line and at least one edge token. Thorough tier only: one atheris (libFuzzer, coverage of cnfgen.graphs) campaign per in-house reader and graph type, from an empty corpus and from a seed corpus (snippets of tests/ + reference-writer output), -runs={} each, max_len 160, in a sub-process with a fresh corpus directory under out/fuzz, the same oracle applied to every input inside the target".format(FUZZ_RUNS),
              required_labels=['{}/{}'.format(f, t) for t in R.TYPES for f in R.INHOUSE[t]] +
              ['blank-line', 'comment-line', 'rejected', 'dag-rejected', 'valid-accepted', 'ref:valid', 'ref:invalid',
@@ -613,7 +642,7 @@ SUBCHECKS = [
               'why:vertex-lines-not-increasing', 'why:too-few-entries', 'why:too-many-entries',
               'why:no-size-line', 'mut:truncate']),
     SubCheck('nx_docs', run_nxdoc, strategy=strat_nxdoc,
-             quick=1500, thorough=40000,
+             quick=1500, thorough=30000,
              rule="GML and DOT documents written by the harness's own writers (0..14 nodes, identifiers 1..n / 0..n-1 / with gaps / alphabetic, node statements in order or shuffled, quoted identifiers, labels, extra attributes, comments, one-line layout, undeclared nodes, either endpoint first for undirected edges, bipartite attribute); unmutated documents must be read exactly (numbering by increasing identifier; a dag document with a back edge must be rejected); a quarter of the documents get 1..3 text mutations and must give a graph or ValueError; non-trivial: >=1 edge and >=3 nodes",
              required_labels=['{}/{}'.format(t, f) for t in R.TYPES for f in ('gml', 'dot')] +
              ['exact', 'mutated', 'rejected', 'shuffled-nodes', '>=10-vertices', 'dag-rejected']),
